@@ -29,6 +29,7 @@ import (
 	"github.com/meshplus/bitxhub/internal/repo"
 	"github.com/meshplus/bitxhub/internal/router"
 	"github.com/meshplus/bitxhub/verif/sim"
+	types2 "github.com/meshplus/eth-kit/types"
 	"github.com/sirupsen/logrus"
 )
 
@@ -157,6 +158,7 @@ func newReplica(id int, w World, pol Policy) (*replica, error) {
 	if pol.ProofType == "" {
 		pol.ProofType = "serial"
 	}
+	types2.InitEIP155Signer(new(big.Int).SetUint64(w.ChainID)) // what cmd/bitxhub does at start-up (process-wide)
 	r := &replica{id: id, world: w, pol: pol, stateKV: sim.NewSimKV(), chainKV: sim.NewSimKV(), dir: d}
 	r.cfg = w.config(pol.ProofType)
 	nodeKey := keyFor("node")
